@@ -40,6 +40,7 @@ type Scenario struct {
 	Samples [][2]int        `json:"samples"`
 	P       latgeo.LPath    `json:"p"`
 	Open    bool            `json:"open"` // leave the contours open (Settle closes them implicitly)
+	Det     bool            `json:"det"`  // deterministic (exhaustive) space: known findings are recorded per input
 	Emb     latgeo.Emb      `json:"emb"`
 	Exp     [4][]int        `json:"exp"` // expected cells per fill rule
 	F       map[string]bool `json:"f"`
@@ -203,6 +204,15 @@ func exec(s *Scenario, guard bool) (ms []core.Mismatch) {
 			}
 		}
 	}
+	for i := range ms {
+		if s.Open {
+			// every deviation on a path with an open sub-path is one finding: open sub-paths are kept open instead of
+			// being closed implicitly (feature HasOpenSubpath)
+			ms[i].Signature = "open-subpath-not-implicitly-closed"
+		} else if s.Det {
+			ms[i].Key = ms[i].Signature + "|" + s.P.SVG() + "|" + s.Emb.Name
+		}
+	}
 	return
 }
 
@@ -258,7 +268,7 @@ func (d Driver) Run(c *core.Ctx) error {
 
 	var n, nontriv int64
 	var seen sync.Map
-	runGen := func(o tlc.Opts, open bool) {
+	runGen := func(o tlc.Opts, open, det bool) {
 		var hdr Line
 		ch := make(chan []byte, 8192)
 		o.OnLine = func(p []byte) {
@@ -293,7 +303,7 @@ func (d Driver) Run(c *core.Ctx) error {
 					}
 				}
 				for _, e := range embsFor(hash(key), c.Thorough()) {
-					s := &Scenario{Kind: "settle", S: hdr.S, Samples: hdr.Samples, P: l.P, Open: open, Emb: e, Exp: [4][]int{l.R0, l.R1, l.R2, l.R3}, F: l.F}
+					s := &Scenario{Kind: "settle", S: hdr.S, Samples: hdr.Samples, P: l.P, Open: open, Det: det, Emb: e, Exp: [4][]int{l.R0, l.R1, l.R2, l.R3}, F: l.F}
 					ms := exec(s, false)
 					c.Count(8, 0, 1)
 					if k%20000 == 3 && e.Name == "id" {
@@ -309,15 +319,16 @@ func (d Driver) Run(c *core.Ctx) error {
 		<-done
 	}
 	if c.Thorough() {
-		runGen(tlc.Opts{Module: "BoolOps", Config: cfg(2, 4, 1, "all", 0, false), Timeout: 20 * time.Minute}, false) // all 6561 4-point contours on 3x3
-		runGen(tlc.Opts{Module: "BoolOps", Config: cfg(2, 3, 2, "all", 0, false), Timeout: 20 * time.Minute}, false) // all pairs of 3-point contours on 3x3 (531441)
-		runGen(tlc.Opts{Module: "BoolOps", Config: cfg(4, 6, 1, "random", 60000, false), Seed: c.Seed, Timeout: 20 * time.Minute}, false)
-		runGen(tlc.Opts{Module: "BoolOps", Config: cfg(6, 6, 2, "random", 30000, false), Seed: c.Seed + 1, Timeout: 20 * time.Minute}, false)
-		runGen(tlc.Opts{Module: "BoolOps", Config: cfg(3, 5, 1, "random", 20000, false), Seed: c.Seed + 2, Timeout: 20 * time.Minute}, true)
+		runGen(tlc.Opts{Module: "BoolOps", Config: cfg(2, 4, 1, "all", 0, false), Timeout: 30 * time.Minute}, false, true) // all 6561 4-point contours on 3x3
+		runGen(tlc.Opts{Module: "BoolOps", Config: cfg(2, 3, 2, "all", 0, false), Timeout: 30 * time.Minute}, false, true) // all pairs of 3-point contours on 3x3 (531441)
+		runGen(tlc.Opts{Module: "BoolOps", Config: cfg(4, 6, 1, "random", 60000, false), Seed: c.Seed, Timeout: 30 * time.Minute}, false, false)
+		runGen(tlc.Opts{Module: "BoolOps", Config: cfg(6, 6, 2, "random", 30000, false), Seed: c.Seed + 1, Timeout: 30 * time.Minute}, false, false)
+		runGen(tlc.Opts{Module: "BoolOps", Config: cfg(3, 5, 1, "random", 300, false), Seed: c.Seed + 2, Timeout: 30 * time.Minute}, true, false)
 	} else {
-		runGen(tlc.Opts{Module: "BoolOps", Config: cfg(2, 4, 1, "all", 0, false)}, false)
-		runGen(tlc.Opts{Module: "BoolOps", Config: cfg(4, 6, 1, "random", 8000, false), Seed: c.Seed}, false)
-		runGen(tlc.Opts{Module: "BoolOps", Config: cfg(3, 4, 2, "random", 3000, false), Seed: c.Seed + 1}, false)
+		runGen(tlc.Opts{Module: "BoolOps", Config: cfg(2, 4, 1, "all", 0, false)}, false, true)
+		runGen(tlc.Opts{Module: "BoolOps", Config: cfg(4, 6, 1, "random", 8000, false), Seed: c.Seed}, false, false)
+		runGen(tlc.Opts{Module: "BoolOps", Config: cfg(3, 4, 2, "random", 3000, false), Seed: c.Seed + 1}, false, false)
+		runGen(tlc.Opts{Module: "BoolOps", Config: cfg(3, 5, 1, "random", 40, false), Seed: c.Seed + 2}, true, false)
 	}
 	c.Count(0, nontriv, 0)
 	c.SetExtra("paths", n)
